@@ -445,7 +445,7 @@ class Check:
             for i, (what, replay, found) in enumerate(shown[:5]):
                 path = os.path.join(VERIF, "work", "replays", "%s_%d_%d.json" % (self.pid, self.seed, i))
                 with open(path, "w") as f:
-                    json.dump({"property": self.pid, "what": what, "replay": replay,
+                    json.dump({"property": self.pid, "seed": self.seed, "tier": self.tier, "what": what, "replay": replay,
                                "failing_input_found": found}, f, indent=1, default=repr)
                 print("VIOLATION property=%s replay=%s%s" %
                       (self.pid, path, "" if found else " no-failing-input-found"))
